@@ -8,3 +8,4 @@ import Theorems.C09
 #print axioms C09.ml_is_nearest_decoder
 #print axioms C09.link_chanSub
 #print axioms C09.link_reed
+#print axioms C09.link_bm_t1
